@@ -46,8 +46,10 @@ VARIABLES doc, cursor, count
 vars == <<doc, cursor, count>>
 
 CONSTANTS LitSet      \* which literal palette this model uses
-Skeletons == {[head |-> h, layers |-> 0, rec |-> FALSE, items |-> <<>>, foot |-> FALSE] : h \in Heads}
-             \cup {[head |-> h, layers |-> 1, rec |-> r, items |-> <<>>, foot |-> FALSE] : h \in {"none", "lam_formals_ml"}, r \in BOOLEAN}
+\* layers: number of directly nested let blocks around the set; inc: an own-line comment follows every `in'
+Skeletons == {[head |-> h, layers |-> 0, inc |-> FALSE, rec |-> FALSE, items |-> <<>>, foot |-> FALSE] : h \in Heads}
+             \cup {[head |-> h, layers |-> l, inc |-> c, rec |-> r, items |-> <<>>, foot |-> FALSE] :
+                      h \in {"none", "lam_formals_ml", "lam_id"}, l \in {1, 2, 3}, c \in BOOLEAN, r \in BOOLEAN}
 Init == /\ doc \in Skeletons
         /\ cursor = <<>> /\ count = 0
 
